@@ -47,8 +47,8 @@ impl Prop for EarlyStop {
 
     fn runs(&self, tier: Tier) -> u64 {
         match tier {
-            Tier::Quick => 12_000,
-            Tier::Thorough => 300_000,
+            Tier::Quick => 40_000,
+            Tier::Thorough => 800_000,
         }
     }
 
